@@ -544,6 +544,11 @@ class ObjectPairs(Suite):
                dict(cls='AutoRidge', cls2='AutoLasso', a1={'alpha': 0.5}, a2={'alpha': 0.5}),
                dict(cls='AutoRegressor', cls2='AutoRidge', a1={'alpha': 0.5, 'max_iter': 10}, a2={'alpha': 0.5, 'max_iter': 10}),
                dict(cls='AutoRidge', a1={'alpha': 0.5}, a2={'alpha': 0.25}),
+               # an argument left out at its default, and a value of another type whose text equals the default's
+               dict(cls='AutoD', a1={'x': 1, 'flag': 1}, a2={'x': 1, 'flag': '1'}),
+               dict(cls='AutoD', a1={'x': 1}, a2={'x': 1, 'rate': '1.0'}),
+               dict(cls='AutoD', a1={'x': 1, 'opts': {'a': 1, 'b': [2]}}, a2={'x': 1, 'opts': "{'a': 1, 'b': [2]}"}),
+               dict(cls='AutoB', a1={'x': 1}, a2={'x': 1, 'y': 'None'}),
                # a class whose public property is a lossy view of the argument it stores privately
                dict(cls='AutoL', a1={'columns': ['b', 'a']}, a2={'columns': ['a', 'b']}),
                dict(cls='AutoL', a1={'columns': ['a', 'a']}, a2={'columns': ['a']}),
